@@ -577,7 +577,8 @@ def sdd_argmax_case(case):
     """case = ('sddarg', M, sps, nsym, family, k, seed): seeded field of slot energies without ties.
     families: 'amp'  = distinct non-negative integer amplitude per slot x one fixed non-negative pulse,
               'free' = free non-negative integer samples (sums exact in float64),
-              'real' = free non-negative float samples, winner ahead by more than the summation rounding bound.
+              'real' = free non-negative float samples, winner ahead by more than the summation rounding bound,
+              'signed' = free signed integer samples (M <= 8).
     A symbol is kept only if the slot with the largest sum(x) is also the slot with the largest sum(x^2)
     (the statement's 'integrated energy' is decided the same way by both readings); otherwise it is redrawn."""
     from opticomlib.ppm import SDD
@@ -596,6 +597,10 @@ def sdd_argmax_case(case):
             blk = amp[:, :, None] * pulse[None, None, :]
         elif family == 'free':
             blk = rs.randint(0, 1001, (need, M, sps)).astype(float)
+        elif family == 'signed':
+            # bipolar / DC-blocked waveforms: signed integer samples. Kept symbols still have the same winner under sum(x) and
+            # sum(x^2); what they separate is the slot of largest sum from the slot of largest |sum|.
+            blk = rs.randint(-1000, 1001, (need * 4, M, sps)).astype(float)
         else:
             blk = rs.random_sample((need, M, sps)) * rs.choice([1e-3, 1.0, 1e3])
         s1 = blk.sum(axis=2)
@@ -605,7 +610,7 @@ def sdd_argmax_case(case):
         for j in np.flatnonzero(ok):
             rows.append(blk[j])
         redraw += int((~ok).sum())
-        if redraw > 50 * nsym + 1000:
+        if redraw > (50 if family != 'signed' else 4000) * nsym + 1000:
             raise RuntimeError('cannot draw tie-free energies')
     blk = np.array(rows[:nsym])
     x = blk.reshape(-1)
@@ -815,9 +820,11 @@ def sdd_spaces(tier, seed):
     arg = []
     for M in ORDERS:
         for sps in (1, 2, 5, 16):
-            for fam in ('amp', 'free', 'real'):
+            for fam in ('amp', 'free', 'real', 'signed'):
+                if fam == 'signed' and M > 8:
+                    continue
                 for k in range(2 if quick else 8):
-                    arg.append(('sddarg', M, sps, max(2, 512 // M), fam, k, seed))
+                    arg.append(('sddarg', M, sps, max(2, 512 // M) if fam != 'signed' else 32, fam, k, seed))
     parts.append(('sdd.argmax-seeded-energies', arg, 120))
     perm = []
     for M in (2, 4) if quick else (2, 4, 8):
